@@ -326,7 +326,7 @@ PROPS["C12"] = {
 PROPS["C08"] = {
     "title": "Curve fitting returns a connected chain within the error bound",
     "gen_modules": ["Basis", "Fit"],
-    "props_modules": ["C08", "C08Error", "C08Cubic"],
+    "props_modules": ["C08", "C08Error", "C08Cubic", "C08Term"],
     "corr_n": (3000, 60000),
     "search_n": (300, 6000),
     "technique": "Lean 4 theorems about fit_curve's block loop, max_points_to_fit, fit_line and newton_raphson_root_find translated from fit.rs on every run, and about a recursion skeleton of fit_curve_cubic "
@@ -341,6 +341,14 @@ PROPS["C08"] = {
                   "square root - with newton_in_unit that parameter is in [0,1]. cubic_body_cases / returned_curve_within_error (Props/C08Cubic): the WHOLE body of fit_curve_cubic is translated (clamp, line, initial fit, "
                   "re-parameterisation loop with break, acceptance, split with both self-calls; the numeric helpers are parameters): for any helpers it returns the line, or ONE curve generated from some "
                   "parameters whose error measured FOR THAT CURVE is within the clamped tolerance (the curve returned is the curve measured), or the two recursive fits sharing points[split]. "
+                  "TERMINATION and the chain for the GENERATED body (Props/C08Term): cubicKnot ties the body's two self-calls with a depth; cubicKnot_chain - for every tolerance (negative ones clamped), tangents and "
+                  "least-squares kernel, depth >= number of points is never exhausted and the result is a connected chain from the first to the last point, given that generate_bezier's curve runs from the "
+                  "first to the last point of its slice and a rejected candidate is split at an interior sample; cubicKnot_stable - more depth never changes the answer (the Rust function, which has no depth, "
+                  "computes the knot at depth points.length: the recursion terminates after at most that many nested calls and never indexes points[split-1] / points[split+1] out of range); "
+                  "split_interior / generated_split_interior (Props/C08Error, C08Term) discharge the interior-split hypothesis for the generated max_error_for_curve: the index returned has a POSITIVE squared error "
+                  "(max_error_pick_index), so if the first and last sample have error 0 (fit_point_error_at_hit; their parameters 0 and 1 are kept by newton_fixed_at_ends_*) a candidate that is not within "
+                  "the tolerance >= 0 is split at 1 <= i, i + 1 < n. body_eq / bodyState_inv: the generated body is line | bodyFinish(bodyState), the state being (parameters, the curve generated from them, "
+                  "that curve's measured error and index). "
                   "NOT proved: the quality of generate_bezier's least squares (how often a candidate is accepted, i.e. how many "
                   "curves are returned); the search checks every sample within max_error of the chain by dense sampling + refinement, chain connected bit-exactly, ends exact.",
     "level_note": "fit_curve_cubic's numeric kernel (generate_bezier, chords_for_points, reparameterize, tangent_between) is a parameter of the theorems; Model/Fit.lean's skeleton is kept for the chain theorems. " + COMMON_NOTE,
